@@ -4,7 +4,7 @@
        idx = side * 65^k + d0 * 65^(k-1) + ... + d(k-1)      side 0 = white to move
    entry = int16 LE: -32768 not a chess position, -32767 probeDTM said "not found", else score.
    Decoding of entries is the extracted [tlabel_of_answer] (Checker.v), nothing here. *)
-open Tb_model
+open Dtm_model
 
 let int_of_z (x : int) : int = x          (* ExtrOcamlZInt: Coq Z/N/positive are OCaml int *)
 let z_of_int (x : int) : int = x
